@@ -135,6 +135,42 @@ def _probe(walker, cls, fields):
     return list(reads), out
 
 
+def _probe_exact(walker, cls, fields):
+    """Run the walker on a GENUINE instance of `cls` (exact type: a dispatch on `type(node) is X` or through a table
+    keyed by class sees it as it sees parsed nodes) whose expression children are recording instances; return
+    (child fields read, outcome)."""
+    reads = []
+
+    def rec(v):
+        if isinstance(v, ast.expr):
+            base = type(v)
+
+            class Child(base):
+                def __getattribute__(self, name):
+                    if not name.startswith("__") and name in type(self)._fields:
+                        reads.append(name)
+                    return object.__getattribute__(self, name)
+            Child.__name__ = base.__name__
+            return Child(**{f: getattr(v, f, None) for f in base._fields})
+        if isinstance(v, list):
+            return [rec(x) for x in v]
+        return v
+    try:
+        node = cls(**{k: rec(v) for k, v in fields.items()})
+        ast.fix_missing_locations(node)
+    except Exception as e:  # noqa
+        return [], "unbuildable:" + type(e).__name__
+    del reads[:]
+    try:
+        walker(node)
+        out = "value"
+    except Exception as e:  # noqa
+        out = "raise:" + type(e).__name__
+    except BaseException as e:  # noqa
+        out = "raise-base:" + type(e).__name__
+    return list(reads), out
+
+
 def all_subclasses(cls):
     out = []
     for c in cls.__subclasses__():
@@ -202,8 +238,12 @@ def evaluate():
         walker = m._compute_node
         for c in all_subclasses(ast.expr):
             reads, out = _probe(walker, c, _minimal(c))
-            probe_out[c.__name__] = out
-            if reads:
+            # second probe with an exact-type instance: a branch `type(node) is ast.X` / a table keyed by class does not
+            # fire for the recording subclass above.  Handled iff the node's own fields are read (subclass probe), a
+            # child is looked at, a value comes back, or the two probes end differently (fail closed)
+            reads2, out2 = _probe_exact(walker, c, _minimal(c))
+            probe_out[c.__name__] = out if out2 == out or out2.startswith("unbuildable") else f"{out}|exact:{out2}"
+            if reads or reads2 or out2 == "value" or (out2 != out and not out2.startswith("unbuildable")):
                 handled.append(c.__name__)
         facts["handled"] = handled
         # an unhandled class must end in an exception (the final raise), never in a value
